@@ -48,6 +48,25 @@ def deep_leaves(P, f, o, depth=0):
     return out
 
 
+def _flag_loads(P, f, o, depth=0):
+    """loads of the secack_on member (of a board obtained from a lookup call) that feed a condition"""
+    out = []
+    if o.get("k") != "inst" or depth > 8:
+        return out
+    i = f.insts[o["id"]]
+    if i.op == "load":
+        if i["ptr"].get("k") == "inst" and rules.field_path_of_ptr(P, f, i["ptr"]) == FIELD:
+            bp = f.resolve(i["ptr"])
+            tags = flow.origins(f, bp["base"]) if bp is not None and bp.op == "getelementptr" else set()
+            if any(t[0] == "call" for t in tags):
+                return [i]
+        return out
+    for k in ("a", "b"):
+        if k in i.d and isinstance(i[k], dict):
+            out += _flag_loads(P, f, i[k], depth + 1)
+    return out
+
+
 def _describe(f, leaf):
     li = f.resolve(leaf)
     if li is not None and li.op == "load" and li["ptr"].get("k") == "global":
@@ -124,7 +143,27 @@ def run(chk, w):
             if not any(e[0] == "call" and e[3] == c.id for p in paths for e in p if e[0] == "call"):
                 continue
             guard_ok = False
+            why = None
             for (gd, truth) in rules.branch_conditions(disp, c):
+                # `mode == REQUIRED` with an enum / int flag: every store of that constant is made under the board's secack_on being true
+                cnd_ = disp.resolve(gd["cond"])
+                if cnd_ is not None and cnd_.op == "icmp" and cnd_["pred"] in ("eq", "ne") and rules.const_of(disp, cnd_["b"]) is not None:
+                    src_ = rules.load_source(disp, cnd_["a"])
+                    if src_ and src_[0] == "alloca" and (cnd_["pred"] == "eq") == truth:
+                        kval = rules.const_of(disp, cnd_["b"])
+                        sts_ = [s_ for s_ in disp.all_insts() if s_.op == "store" and s_["ptr"].get("k") == "inst" and s_["ptr"]["id"] == src_[1]]
+                        if sts_ and all(rules.const_of(disp, s_["val"]) is not None for s_ in sts_):
+                            ks_ = [s_ for s_ in sts_ if rules.const_of(disp, s_["val"]) == kval]
+                            def _under_flag(s_):
+                                for (g2, t2) in rules.conditions_at(disp, s_):
+                                    if not t2:
+                                        continue
+                                    for l_ in _flag_loads(P, disp, g2["cond"]):
+                                        return True
+                                return False
+                            if ks_ and all(_under_flag(s_) for s_ in ks_):
+                                guard_ok = True
+                                continue
                 if not truth:
                     continue
                 src = rules.load_source(disp, gd["cond"])
